@@ -340,8 +340,28 @@ pub fn gen_ty(rng: &mut Rng, depth: usize, inline_unsafe: &mut bool, with_commen
         }
     }
 }
+/// A type nested `d` constructors deep (a chain of `?`, `[]`, `[string]` and one-field inline structs around a
+/// leaf): the grammar puts no bound on nesting, so neither may the parser (C13 / C14 quantify over every depth).
+pub fn deep_ty(rng: &mut Rng, d: usize) -> Ty {
+    let mut t = match rng.below(4) { 0 => Ty::Int, 1 => Ty::Str, 2 => Ty::Custom(type_name(rng)), _ => Ty::Enum(vec![(field_name(rng), vec![])]) };
+    for _ in 0..d {
+        t = match rng.below(4) {
+            0 if !matches!(t, Ty::Opt(_)) => Ty::Opt(Box::new(t)),
+            1 => Ty::Map(Box::new(t)),
+            2 => Ty::Struct(vec![Field { name: field_name(rng), ty: t, cs: vec![] }]),
+            _ => Ty::Arr(Box::new(t)),
+        };
+    }
+    t
+}
 fn gen_fields(rng: &mut Rng, depth: usize, inline_unsafe: &mut bool, wc: usize) -> Vec<Field> {
-    (0..rng.below(4)).map(|_| Field { name: field_name(rng), ty: gen_ty(rng, depth, inline_unsafe, wc), cs: comments(rng, wc, true) }).collect()
+    (0..rng.below(4))
+        .map(|_| {
+            // one field in sixty is nested 6..70 constructors deep
+            let ty = if rng.chance(1, 60) { let d = rng.range(6, 70); deep_ty(rng, d) } else { gen_ty(rng, depth, inline_unsafe, wc) };
+            Field { name: field_name(rng), ty, cs: comments(rng, wc, true) }
+        })
+        .collect()
 }
 /// `wc` = comment density (0 = none); returns the tree and whether an "unsafe" comment (containing
 /// `)` or `:`) was put on a field of an inline struct.
